@@ -178,7 +178,16 @@ def ev(e: ast.AST, env: dict):
     if isinstance(e, ast.Constant):
         return e.value
     if isinstance(e, ast.Name):
-        return env.get(e.id, UNK)
+        if e.id in env:
+            return env[e.id]
+        # a test bound to a local first (`nothing = len(xs) < 1` ... `if nothing:`): follow the single reaching definition
+        res = env.get("__resolve__")
+        depth = env.get("__depth__", 0)
+        if res is not None and depth < 4:
+            v = res(e)
+            if v is not None:
+                return ev(v, dict(env, __depth__=depth + 1))
+        return UNK
     if isinstance(e, (ast.List, ast.Tuple, ast.Set)):
         vals = [ev(x, env) for x in e.elts]
         if any(v is UNK or isinstance(v, Len) for v in vals):
@@ -363,6 +372,15 @@ def assume(ctx, f, **facts) -> dict:
     """Evaluation environment: the stated assumption on top of the module-level constants visible in `f`."""
     env = module_consts(ctx, f)
     env.update(facts)
+
+    def resolve(name_node):
+        if getattr(name_node, "_parent", None) is None or not isinstance(name_node.ctx, ast.Load):
+            return None
+        try:
+            return single_def_value(ctx, f, name_node)
+        except Exception:
+            return None
+    env["__resolve__"] = resolve
     return env
 
 
@@ -378,9 +396,19 @@ def decide_silent(cfg, starts, is_goal: Callable, avoid: Callable, env: dict, na
     memo: Dict[int, Optional[list]] = {}
     onstack: set = set()
 
+    def mentions(e, depth=0):
+        for x in ast.walk(e):
+            if isinstance(x, ast.Name):
+                if x.id in names:
+                    return True
+                res = env.get("__resolve__")
+                v = res(x) if (res is not None and depth < 3) else None
+                if v is not None and mentions(v, depth + 1):
+                    return True
+        return False
+
     def opaque(n):
-        return isinstance(n, (ast.If, ast.While)) and any(isinstance(x, ast.Name) and x.id in names for x in ast.walk(n.test)) \
-            and _truth(ev(n.test, env)) is UNK
+        return isinstance(n, (ast.If, ast.While)) and _truth(ev(n.test, env)) is UNK and mentions(n.test)
 
     def go(n):
         if is_goal(n):
